@@ -208,6 +208,14 @@ pub fn run(ctx: &Ctx) {
             ctx.count(&v, hash64(&(name.clone(), aux)), || serde_json::to_value(&cc).unwrap());
         }
     }
+    // corpus/c20/*.pack: inputs of the coverage-guided campaigns in the fuzz target's format (byte 0 entry point, byte 1 auxiliary argument, rest input)
+    super::c04::replay_corpus_with(ctx, "c20-packs", |ctx, data| {
+        if data.len() < 2 { return (Verdict::pass(false), Value::Null); }
+        let entry = ENTRIES[data[0] as usize % ENTRIES.len()];
+        let auxs = aux_for(entry);
+        let c = Case { entry: entry.to_string(), input: Input::Raw(Bytes(data[2..].to_vec())), aux: auxs[data[1] as usize % auxs.len()].to_string() };
+        (eval(ctx, &c), serde_json::to_value(&c).unwrap_or(Value::Null))
+    });
     ctx.clear_inflight();
 }
 
